@@ -21,6 +21,9 @@ def gen_skeletons(work, pid, specs):
     binp, blog = work.build("skel")
     if binp is None:
         return "skeleton extractor does not build: " + blog
+    # a file listed without a filter subsumes filtered entries of the same file (no duplicate defs)
+    whole = {s for s in specs if ":" not in s}
+    specs = sorted(set(s for s in specs if ":" not in s or s.split(":")[0] not in whole))
     out = os.path.join(core.LEAN, "Ekit", "Generated", "Skel%s.lean" % pid)
     tmp = os.path.join(work.dir, "Skel%s.lean" % pid)
     rc, log = core.sh([binp, "-root", work.repo, "-out", tmp, "-ns", "Ekit.Gen.Skel" + pid] + list(specs),
